@@ -584,8 +584,12 @@ goroutine label `s<j>` = loop goroutine of service `j`. -/
 
 structure MSvc where
   id : Nat
+  name : String := ""
   alive : Bool := true
+  started : Bool := true
+  blocked : Bool := false       -- the loop is parked in a blocking closure
   next : Nat := 0
+  pending : List Nat := []      -- accepted closures that cannot run yet (not started / loop parked)
 
 structure MSt where
   svcs : List MSvc := []
@@ -594,42 +598,56 @@ def MSt.set (s : MSt) (v : MSvc) : MSt := { svcs := s.svcs.map fun u => if u.id 
 
 def commaJoin (l : List String) : String := if l.isEmpty then "-" else ",".intercalate l
 
+def MSvc.runnable (v : MSvc) : Bool := v.started && !v.blocked
+
 def stepM (s : MSt) (ws : List String) : MSt × String :=
+  let withSvc (f : MSvc → MSt × String) : MSt × String :=
+    match kvNat ws "svc" with
+    | some k => match s.svcs.find? (·.id = k) with
+      | some v => f v
+      | none => (s, "bad-op")
+    | none => (s, "bad-op")
   match ws.head? with
   | some "svc" =>
     match kvNat ws "id" with
-    | some id => if s.svcs.any (·.id = id) then (s, "bad-op") else ({ svcs := s.svcs ++ [{ id := id }] }, "ok")
+    | some id =>
+      let name := (kv ws "name").getD ""
+      -- a name whose holder is still alive would mean one scheduler with two consumers (by design): not generated
+      if s.svcs.any (·.id = id) || (name != "" && s.svcs.any fun u => u.name == name && u.alive) then (s, "bad-op")
+      else ({ svcs := s.svcs ++ [{ id := id, name := name, started := kv ws "start" != some "0" }] }, "ok")
     | none => (s, "bad-op")
-  | some "mpost" =>
-    match kvNat ws "svc", kvNat ws "n" with
-    | some k, some n =>
-      match s.svcs.find? (·.id = k) with
-      | none => (s, "bad-op")
-      | some v =>
-        if v.alive then
-          let ex := (List.range n).map fun i => s!"{k}.{v.next + i}@s{k}"
-          (s.set { v with next := v.next + n }, s!"exec={commaJoin ex} ret={n}:0")
-        else (s.set { v with next := v.next + n }, s!"exec=- ret=0:{n}")
-    | _, _ => (s, "bad-op")
-  | some "mchain" =>
-    match kvNat ws "svc", kvNat ws "n" with
-    | some k, some n =>
-      match s.svcs.find? (·.id = k) with
-      | none => (s, "bad-op")
-      | some v =>
-        if v.alive then
-          -- n synchronous tasks, task i appends i; the model is the chain model run to completion
-          let ev := (List.range n).map (fun i => s!"t{i}{showNats (List.range i)}@s{k}") ++ [s!"f0{showNats (List.range n)}@s{k}"]
-          (s, " ".intercalate ev)
-        else (s, "-")
-    | _, _ => (s, "bad-op")
-  | some "mstop" =>
-    match kvNat ws "svc" with
-    | some k =>
-      match s.svcs.find? (·.id = k) with
-      | some v => if v.alive then (s.set { v with alive := false }, "ok") else (s, "bad-op")
-      | none => (s, "bad-op")
+  | some "mstart" => withSvc fun v =>
+    if v.started || !v.alive then (s, "bad-op")
+    else (s.set { v with started := true, pending := [] }, "exec=" ++ commaJoin (v.pending.map fun q => s!"{v.id}.{q}@s{v.id}"))
+  | some "mblock" => withSvc fun v =>
+    if !v.started || !v.alive || v.blocked then (s, "bad-op") else (s.set { v with blocked := true }, "ok")
+  | some "munblock" => withSvc fun v =>
+    if !v.blocked then (s, "bad-op")
+    else (s.set { v with blocked := false, pending := [] }, "exec=" ++ commaJoin (v.pending.map fun q => s!"{v.id}.{q}@s{v.id}"))
+  | some "mpost" => withSvc fun v =>
+    match kvNat ws "n" with
+    | some n =>
+      let k := v.id
+      if !v.alive then (s.set { v with next := v.next + n }, s!"exec=- ret=0:{n}")
+      else if v.runnable then
+        let ex := (List.range n).map fun i => s!"{k}.{v.next + i}@s{k}"
+        (s.set { v with next := v.next + n }, s!"exec={commaJoin ex} ret={n}:0")
+      else if v.pending.length + n > 900 then (s, "bad-op")
+      else (s.set { v with next := v.next + n, pending := v.pending ++ (List.range n).map (v.next + ·) }, s!"exec=- ret={n}:0")
     | none => (s, "bad-op")
+  | some "mchain" => withSvc fun v =>
+    match kvNat ws "n" with
+    | some n =>
+      let k := v.id
+      if !v.alive then (s, "-")
+      else if !v.runnable then (s, "bad-op")
+      else
+        -- n synchronous tasks, task i appends i; the model is the chain model run to completion
+        let ev := (List.range n).map (fun i => s!"t{i}{showNats (List.range i)}@s{k}") ++ [s!"f0{showNats (List.range n)}@s{k}"]
+        (s, " ".intercalate ev)
+    | none => (s, "bad-op")
+  | some "mstop" => withSvc fun v =>
+    if !v.alive || (v.blocked && !v.pending.isEmpty) then (s, "bad-op") else (s.set { v with alive := false }, "ok")
   | _ => (s, "bad-op")
 
 /-! ## registry race (cases `reset kind=g`)
@@ -777,7 +795,11 @@ structure SpChain where
 structure SpSvc where
   id : Nat
   alive : Bool := true
-  next : Nat := 0
+  started : Bool := true
+  blocked : Bool := false
+  next : Nat := 0       -- closures posted so far
+  ran : Nat := 0        -- closures executed so far (they must run in posting order)
+  accepted : Nat := 0   -- closures accepted but not executed yet
 
 structure SpecS where
   kind : CaseKind := .none
@@ -1004,42 +1026,59 @@ def specM (svcs : List SpSvc) (ws : List String) (obs : String) : Except String 
   if obs == "panic" then
     throw (viol "service-op-crashed" s!"{" ".intercalate ws} panicked in the caller")
   let setS (v : SpSvc) : List SpSvc := svcs.map fun u => if u.id = v.id then v else u
-  match ws.head? with
-  | some "svc" =>
+  -- the executions reported by an op on service `v`: on its loop, in posting order, each once
+  let checkExec (v : SpSvc) (ex : List (Nat × Nat × String)) (mustRun : Nat) : Except String SpSvc := do
+    let k := v.id
+    let mut ran := v.ran
+    for (p, q, g) in ex do
+      if p ≠ k then throw (viol "unknown-closure" s!"closure {p}.{q} reported by an op on service {k}")
+      if g != s!"s{k}" then
+        throw (viol "off-scheduler-goroutine" s!"closure {k}.{q} posted to service {k} ran on goroutine {g}, not on that service's loop")
+      if q < ran then throw (viol "closure-executed-twice" s!"closure {k}.{q} executed again")
+      if q > ran then throw (viol "poster-order-broken" s!"service {k}: closure {q} executed before closure {ran}")
+      ran := ran + 1
+    if ran - v.ran < mustRun then
+      throw (viol "closure-lost" s!"service {k} is running and free: {mustRun} accepted closures must have run, {ran - v.ran} did")
+    return { v with ran := ran, accepted := v.accepted - (ran - v.ran) }
+  let svcOf : Option SpSvc := (kvNat ws "svc").bind fun k => svcs.find? (·.id = k)
+  match ws.head?, svcOf with
+  | some "svc", _ =>
     match kvNat ws "id" with
-    | some id => return svcs ++ [{ id := id }]
+    | some id => return svcs ++ [{ id := id, started := kv ws "start" != some "0" }]
     | none => throw "bad-op"
-  | some "mstop" =>
-    match kvNat ws "svc" with
-    | some k => return svcs.map fun u => if u.id = k then { u with alive := false } else u
-    | none => throw "bad-op"
-  | some "mpost" =>
-    match kvNat ws "svc", kvNat ws "n", svcs.find? (·.id = (kvNat ws "svc").getD 0) with
-    | some k, some n, some v =>
+  | some "mstop", some v => return setS { v with alive := false }
+  | some "mblock", some v =>
+    if obs != "ok" then throw (viol "running-service-refused-post" s!"service {v.id} is running but refused a post")
+    return setS { v with blocked := true }
+  | some "mstart", some v | some "munblock", some v =>
+    match (kv (words obs) "exec").bind parseMExec with
+    | some ex =>
+      let v := if ws.head? == some "mstart" then { v with started := true } else { v with blocked := false }
+      let v' ← checkExec v ex (if v.alive then v.accepted else 0)
+      return setS v'
+    | none => throw (viol "unparsable-observation" obs)
+  | some "mpost", some v =>
+    match kvNat ws "n" with
+    | some n =>
       let ows := words obs
       match (kv ows "exec").bind parseMExec, (kv ows "ret").map (fun r => (r.splitOn ":").map natOf) with
       | some ex, some [some ok, some nl] =>
-        let mut nxt := v.next
-        for (p, q, g) in ex do
-          if p ≠ k then throw (viol "unknown-closure" s!"closure {p}.{q} reported while posting to service {k}")
-          if g != s!"s{k}" then
-            throw (viol "off-scheduler-goroutine" s!"closure {k}.{q} posted to service {k} ran on goroutine {g}, not on that service's loop")
-          if q < nxt then throw (viol "closure-executed-twice" s!"closure {k}.{q} executed again")
-          if q > nxt then throw (viol "poster-order-broken" s!"service {k}: closure {q} executed before closure {nxt}")
-          nxt := nxt + 1
         if v.alive then
           if nl ≠ 0 || ok ≠ n then
-            throw (viol "running-service-refused-post" s!"service {k} is running (never stopped) but Post returned nil {nl} time(s) of {n}")
-          if nxt ≠ v.next + n then
-            throw (viol "closure-lost" s!"service {k}: {n} closures accepted, {nxt - v.next} executed")
+            throw (viol "running-service-refused-post" s!"service {v.id} has not been stopped but Post returned nil {nl} time(s) of {n}")
         else if ok ≠ 0 then
-          throw (viol "post-after-stop-accepted" s!"service {k} is stopped but Post returned a task")
-        return setS { v with next := v.next + n }
+          throw (viol "post-after-stop-accepted" s!"service {v.id} is stopped but Post returned a task")
+        let v := { v with next := v.next + n, accepted := v.accepted + ok }
+        let free := v.alive && v.started && !v.blocked
+        let v' ← checkExec v ex (if free then v.accepted else 0)
+        -- a refused closure never runs: the sequence numbers of refused posts are skipped
+        return setS (if v.alive then v' else { v' with ran := v'.next })
       | _, _ => throw (viol "unparsable-observation" obs)
-    | _, _, _ => throw "bad-op"
-  | some "mchain" =>
-    match kvNat ws "svc", kvNat ws "n", svcs.find? (·.id = (kvNat ws "svc").getD 0) with
-    | some k, some n, some v =>
+    | none => throw "bad-op"
+  | some "mchain", some v =>
+    match kvNat ws "n" with
+    | some n =>
+      let k := v.id
       if !v.alive then return svcs
       let evs := words obs
       let want := (List.range n).map (fun i => s!"t{i}{showNats (List.range i)}") ++ [s!"f0{showNats (List.range n)}"]
@@ -1056,8 +1095,8 @@ def specM (svcs : List SpSvc) (ws : List String) (obs : String) : Except String 
           throw (viol "final-missing" s!"chain on running service {k} stopped after {names.length} of {want.length} steps")
         else throw (viol "task-out-of-order" s!"chain on service {k}: {obs}")
       return svcs
-    | _, _, _ => throw "bad-op"
-  | _ => throw "bad-op"
+    | none => throw "bad-op"
+  | _, _ => throw "bad-op"
 
 /-- does the op hand a panicking closure or task to the code under test? -/
 def postsPanic (ws : List String) : Bool :=
